@@ -47,7 +47,7 @@ def _short(x, limit=2000):
     return s if len(s) <= limit else s[:limit] + "...<truncated>"
 
 
-class CaseTimeout(Exception):
+class CaseTimeout(BaseException):  # not an Exception: checks that catch Exception (to compare error behaviour) must not swallow it
     pass
 
 
@@ -98,6 +98,19 @@ def _work(job):
             fail, nt = res
         except CaseTimeout:
             fail, nt = {"expected": "the call returns", "actual": f"no result within {timeout_s}s", "note": "timeout"}, True
+            # whatever blocked this case (a lock that was never released, ...) is likely to block the rest of
+            # the block as well: report this case and leave the remaining ones of the block unevaluated
+            try:
+                fail["input"] = codec.enc(item)
+            except Exception:  # pragma: no cover
+                fail["input"] = repr(item)
+            fails.append(fail)
+            nt_count += 1
+            # harness plumbing: if the blocked case left the process-wide lock of Av held (a suspended
+            # generator inside a critical section), later cases in this worker would all time out as well;
+            # give the worker a fresh lock so that the remaining checks still say something
+            _worker_init()
+            break
         except Exception as exc:  # an exception of the code under test is a failure
             fail, nt = {
                 "expected": "no exception",
